@@ -23,7 +23,11 @@ SHAPES = [
     (4, ((0, 1), (2, 3))), (4, (((0, 1), 2), 3)), (4, ((0, (1, 2)), 3)), (4, (0, ((1, 2), 3))), (4, (0, (1, (2, 3)))),
 ]
 # (shape index, number of event-type positions)
-PERM_CASES = [(0, 2), (0, 3), (0, 4), (1, 3), (1, 4), (2, 3), (2, 4), (3, 4), (4, 4), (5, 4), (6, 4), (7, 4)]
+import os
+
+THOROUGH = os.environ.get("VERIF_TIER") == "thorough"
+PERM_CASES = ([(0, 2), (0, 3), (0, 4), (1, 3), (1, 4), (2, 3), (2, 4), (3, 4), (4, 4), (5, 4), (6, 4), (7, 4)] if THOROUGH else
+              [(0, 2), (0, 4), (1, 3), (2, 4), (3, 4), (4, 4), (7, 4)])          # quick: every leaf count, both topologies with 4 leaves + the comb
 NTYPES = 3
 
 
@@ -69,3 +73,107 @@ def body_perm(sel: int, t0: int, t1: int, t2: int, t3: int, e0: int, e1: int, e2
 
 
 N_PERM = len(PERM_CASES) * NTYPES
+
+
+# ---- generated code: per permutation the spin factor(s) and one lineshape per resonance ------------------------------------------------
+def _emit_imports():
+    from . import gen
+    return gen
+
+
+N_EMIT = 12 * 4 * 2 * 2 * 2          # family entry x event-type ordering x language x (inline | resonance given as a separate sub-line) x history
+
+
+def body_emit(sel: int) -> bool:
+    gen = _emit_imports()
+    ei, rest = sel % 12, sel // 12
+    ev, rest = rest % 4, rest // 4
+    lang, rest = rest % 2, rest // 2
+    partial, history = rest % 2, rest // 2
+    entry = gen.FAMILY[ei]
+    event = gen.EVENT_TYPES[ev]
+    cls = gen.GooFitChain if lang == 0 else gen.GooFitPyChain
+    key, line, topo, struct, L_top, res, leaves = entry
+    text_line = line
+    sub = ""
+    if partial:
+        # write the first resonance as an undecayed name and give its decay on a separate line
+        rn = res[0][0]
+        start = line.index(rn)
+        depth, end = 0, None
+        for i in range(start, len(line)):
+            if line[i] == "{":
+                depth += 1
+            elif line[i] == "}":
+                depth -= 1
+                if depth == 0:
+                    end = i + 1
+                    break
+        if end is None or depth != 0 or "{" not in line[start:end]:
+            return True
+        sub = line[start:end] + " 2 1 0 2 0 0\n"
+        text_line = line[:start] + rn + line[end:]
+    text = "EventType D0 " + " ".join(event) + "\n" + text_line + " 0 0.5 0.1 0 1.5 0.2\n" + sub + gen.PARAMS
+    import contextlib, io
+    if history:
+        # an unrelated file read earlier in the same process gives the same resonance names other decays / tags
+        other = ("EventType D0 K- pi+ pi+ pi-\nD0{a(1)(1260)+,K-} 0 1 0 0 0 0\na(1)(1260)+[D]{PiPi20[kMatrix.pole.0]{pi+,pi-},pi+} 2 1 0 2 0 0\n"
+                 "D0{K(1460)bar-,pi+} 0 1 0 0 0 0\nK(1460)bar-{K*(892)bar0[GSpline.EFF]{K-,pi+},pi-} 2 1 0 2 0 0\n"
+                 "D0{K*(892)bar0,rho(770)0{pi+,pi-}} 0 1 0 0 0 0\nK*(892)bar0[P]{K-,pi+} 2 1 0 2 0 0\nD0{KPi00,PiPi00[kMatrix.prod.0]{pi+,pi-}} 0 1 0 0 0 0\n"
+                 "KPi00{K-,pi+} 2 1 0 2 0 0\nD0{K(2)*(1430)bar-,pi+} 0 1 0 0 0 0\nK(2)*(1430)bar-[D]{K*(892)bar0{K-,pi+},pi-} 2 1 0 2 0 0\n"
+                 "K*(892)bar0::Spline::Min 0.1\nK*(892)bar0::Spline::Max 2\nK*(892)bar0::Spline::N 2\n" + gen.PARAMS)
+        try:
+            with contextlib.redirect_stderr(io.StringIO()), contextlib.redirect_stdout(io.StringIO()):
+                (gen.GooFitPyChain if lang == 0 else gen.GooFitChain).read_ampgen(text=other)
+        except Exception:
+            pass
+    gen.reset_state()
+    try:
+        with contextlib.redirect_stderr(io.StringIO()), contextlib.redirect_stdout(io.StringIO()):
+            lines, states = cls.read_ampgen(text=text)
+            if len(lines) != 1:
+                return fail(f"{key}: {len(lines)} amplitudes read from one line: {[str(x) for x in lines]}")
+            code = lines[0].to_goofit(states[1:])
+            got_perms = lines[0].list_structure(states[1:])
+    except Exception as e:
+        return fail(f"{key} ({'C++' if lang == 0 else 'Python'}, event type {event}): {type(e).__name__}: {str(e)[:200]}")
+    exp_perms = gen.perms_oracle(leaves, event)
+    if sorted(got_perms) != exp_perms or len(got_perms) != len(set(got_perms)):
+        return fail(f"{key}: list_structure {got_perms}, the typed one-to-one assignments are {exp_perms} (event type {event})")
+    err = gen.check_amplitude_code(code, entry, event, "C++" if lang == 0 else "Python")
+    return err is None or fail(err + f"; partial={bool(partial)}, history={bool(history)}")
+
+
+N_ORDER = 12 * 2
+
+
+def body_order(sel: int) -> bool:
+    """a file with several amplitudes: each appears once, in input order, in both outputs"""
+    gen = _emit_imports()
+    start, lang = sel % 12, sel // 12
+    entries = [gen.FAMILY[(start + 5 * j) % 12] for j in range(4)]
+    text = gen.text_of(entries, gen.EVENT_TYPES[0], gen.PARAMS, coupling_offset=start)
+    fn = gen.write_tmp(f"order_{sel}.txt", text)
+    gen.reset_state()
+    try:
+        out, _ = gen.convert(fn, "cpp" if lang == 0 else "py", True)
+    except Exception as e:
+        return fail(f"conversion of {[e[0] for e in entries]} raised {type(e).__name__}: {str(e)[:200]}")
+    names = gen.AMP_NAME_RE.findall(out)
+    exp = []
+    for e in entries:
+        s = e[1]
+        for a, b in {"K*(892)bar0": "K*(892)~0", "K(1460)bar-": "K(1460)-", "K(2)*(1430)bar-": "K(2)*(1430)-", "PiPi00": "PiPi0", "PiPi20": "PiPi2",
+                     "PiPi30": "PiPi3"}.items():
+            s = s.replace(a, b)
+        exp.append(s)
+    if names != exp:
+        return fail(f"amplitudes in the output {names}, in the file {exp}")
+    blocks = out.split("Line 0", 1)[-1]
+    n_sf_blocks = len(re.findall(r"spin_factor_list\.(?:push_back|append)", blocks))
+    if n_sf_blocks != len(entries):
+        return fail(f"{n_sf_blocks} spin-factor blocks for {len(entries)} amplitudes")
+    return True
+
+
+import re  # noqa: E402
